@@ -112,7 +112,12 @@ def one_shot_reuse_sites(program):
             # re-assignments of the same name make this too imprecise to judge
             if sum(1 for a in ast.walk(f.node) if isinstance(a, ast.Assign) and any(isinstance(t, ast.Name) and t.id == var for t in a.targets)) > 1:
                 continue
-            looped = [u for u in uses if any(id(lp) not in own_loops and not (isinstance(lp, ast.For) and any(x is u for x in ast.walk(lp.iter))) for lp in loops_of(u))]
+            def once(lp, u):
+                """the use sits in the part of the loop construct that is evaluated once (the iterable of a for statement,
+                the first iterable of a comprehension / generator expression)"""
+                it = lp.iter if isinstance(lp, ast.For) else (lp.generators[0].iter if isinstance(lp, (ast.ListComp, ast.SetComp, ast.GeneratorExp, ast.DictComp)) else None)
+                return it is not None and any(x is u for x in ast.walk(it))
+            looped = [u for u in uses if any(id(lp) not in own_loops and not once(lp, u) for lp in loops_of(u))]
             if looped:
                 out.append((f, var, desc, looped[0], "is consumed inside a loop that does not re-create it: from the second iteration on it is empty"))
             elif len(uses) > 1:
@@ -148,3 +153,59 @@ def is_module_function(program: Program, qual: str) -> bool:
     if head not in memo:
         memo[head] = program.find_cls(head) is None
     return memo[head]
+
+
+def early_drop_guards(program: Program):
+    """`return` statements (without a value) in a method that come before the method accumulates its argument into a
+    clause container (`self._xs.append(arg)`) or hands it to a validating helper (one that can raise), together with the
+    tests that guard them: [(function, return node, [guard tests], [("acc", attr) | ("val", helper)], parameter attributes
+    read by the guards)].  A guard that looks at a *projection* of the argument decides from that projection alone that
+    the argument may be dropped / need not be validated."""
+    cache = program.__dict__.get("_early_drop_guards")
+    if cache is not None:
+        return cache
+    out = []
+
+    def can_raise(g) -> bool:
+        return any(isinstance(n, ast.Raise) for n in ast.walk(g.node))
+
+    for f in program.all_functions():
+        if f.cls is None or not f.params or f.is_static:
+            continue
+        sn = f.params[0]
+        prms = set(f.params[1:]) | ({f.vararg} if f.vararg else set())
+        if not prms:
+            continue
+        events = []
+
+        def walk(stmts, guards):
+            for st in stmts:
+                if isinstance(st, ast.If):
+                    walk(st.body, guards + [st.test])
+                    walk(st.orelse, guards + [st.test])
+                elif isinstance(st, ast.Return) and st.value is None:
+                    events.append(("ret", st, list(guards)))
+                elif isinstance(st, (ast.For, ast.While, ast.With, ast.Try)):
+                    walk(getattr(st, "body", []), guards)
+                else:
+                    for n in ast.walk(st):
+                        if isinstance(n, ast.Call) and isinstance(n.func, ast.Attribute) and isinstance(n.func.value, ast.Name) and n.func.value.id == sn:
+                            g = f.cls.resolve(n.func.attr)
+                            if g is not None and can_raise(g) and any(isinstance(a, ast.Name) and a.id in prms for a in n.args):
+                                events.append(("val", st, n.func.attr))
+                        if (isinstance(n, ast.Call) and isinstance(n.func, ast.Attribute) and n.func.attr in ("append", "add") and isinstance(n.func.value, ast.Attribute)
+                                and isinstance(n.func.value.value, ast.Name) and n.func.value.value.id == sn and any(isinstance(a, ast.Name) and a.id in prms for a in n.args)):
+                            events.append(("acc", st, n.func.value.attr))
+        walk(f.node.body, [])
+        for kind, st, guards in [e for e in events if e[0] == "ret"]:
+            later = [(e[0], e[2]) for e in events if e[0] in ("val", "acc") and e[1].lineno > st.lineno]
+            if not later or not guards:
+                continue
+            read = set()
+            for g in guards:
+                for n in ast.walk(g):
+                    if isinstance(n, ast.Attribute) and isinstance(n.value, ast.Name) and n.value.id in prms:
+                        read.add(n.attr)
+            out.append((f, st, guards, later, read))
+    program.__dict__["_early_drop_guards"] = out
+    return out
